@@ -386,11 +386,50 @@ func Cmp(op string, a, b *Term) *Term {
 	return App(op, SBool, a, b)
 }
 
+// allocRanks orders the allocation-counter variables of the function being verified: a variable of higher rank is
+// known (by an assumption added when it was introduced) to be >= every id formed from lower-ranked ones.
+// Parameters of reference type get rank -1 (they are < alloc_0 but not ordered among themselves).
+var allocRanks = map[string]int{}
+
+func idRank(t *Term) (rank int, off int64, ok bool) {
+	if t.Kind == kVar {
+		r, ok := allocRanks[t.Op]
+		return r, 0, ok
+	}
+	if t.Kind == kApp && t.Op == "+" && len(t.Args) == 2 && t.Args[0].Kind == kVar && t.Args[1].Kind == kLit {
+		if r, ok := allocRanks[t.Args[0].Op]; ok && r >= 0 {
+			if n, ok2 := litInt(t.Args[1]); ok2 {
+				return r, n.Int64(), true
+			}
+		}
+	}
+	return 0, 0, false
+}
+
+// distinctIDs: syntactic proof that two object ids differ.
+func distinctIDs(a, b *Term) bool {
+	ra, oa, ok1 := idRank(a)
+	rb, ob, ok2 := idRank(b)
+	if !ok1 || !ok2 {
+		return false
+	}
+	if ra == -1 && rb == -1 {
+		return false
+	}
+	return ra != rb || oa != ob
+}
+
 func Select(arr, idx *Term) *Term {
 	_, v := arr.Sort.ArrayParts()
-	// select over store with syntactically equal index
-	if arr.Kind == kApp && arr.Op == "store" && arr.Args[1].String() == idx.String() {
-		return arr.Args[2]
+	for arr.Kind == kApp && arr.Op == "store" {
+		if arr.Args[1].String() == idx.String() {
+			return arr.Args[2]
+		}
+		if idx.Sort == SInt && distinctIDs(arr.Args[1], idx) {
+			arr = arr.Args[0]
+			continue
+		}
+		break
 	}
 	return App("select", v, arr, idx)
 }
@@ -610,6 +649,28 @@ func (u *Universe) ScriptAbstract(assumptions []*Term, goal *Term) string {
 		as[i] = abstractNonlinear(a)
 	}
 	return u.script(as, abstractNonlinear(goal), false, true)
+}
+
+// scriptMode: bit 0 = abstract nonlinear arithmetic; bit 1 = sidx without its defining equation (injectivity only).
+var sidxInjective *Term
+
+func (u *Universe) ScriptVariant(assumptions []*Term, goal *Term, abstractNL bool, sidxUninterpreted bool) string {
+	as := assumptions
+	g := goal
+	if abstractNL {
+		as = make([]*Term, len(assumptions))
+		for i, a := range assumptions {
+			as[i] = abstractNonlinear(a)
+		}
+		g = abstractNonlinear(goal)
+	}
+	txt := u.script(as, g, false, abstractNL)
+	if sidxUninterpreted {
+		def := "(assert (forall ((so Int) (sx Int)) (! (= (sidx so sx) (+ so sx)) :pattern ((sidx so sx)))))\n"
+		inj := "(assert (forall ((so Int) (sx Int) (sy Int)) (! (=> (= (sidx so sx) (sidx so sy)) (= sx sy)) :pattern ((sidx so sx) (sidx so sy)))))\n"
+		txt = strings.Replace(txt, def, inj, 1)
+	}
+	return txt
 }
 
 // Script renders a complete SMT-LIB script checking that assumptions => goal (by refutation).
